@@ -835,6 +835,8 @@ func (b *BaseStore) AddOperation(ctx context.Context, op operation.Operation, on
 	ctx, span := b.tracer.Start(ctx, "add-operation")
 	defer span.End()
 
+	verifhook.Point("write.begin", op)
+
 	data, err := op.Marshal()
 	if err != nil {
 		return nil, fmt.Errorf("unable to marshal operation: %w", err)
